@@ -63,7 +63,17 @@ Inductive case :=
    per field (FirstTID, LastTID, Ordered) and GetToken(1..LastTID) of the active provider *)
 | CActive (hash : list (bytes * nat)) (hist : list (list nat * list (bytes * nat)))
           (vals : list bytes) (fields : list (bytes * list Z)) (sizes : list (bytes * N))
-          (prov : list (bytes * (Z * Z * bool) * list (option bytes))).
+          (prov : list (bytes * (Z * Z * bool) * list (option bytes)))
+(* real TokenList.FindPattern racing with an Append: pre = Append history before (one worker),
+   sched = the order of the Append's two publication steps and the search's two snapshot reads
+   that the driver forced (by parking the search on fieldsMu / tidMu); before/after = the field's
+   values in TID order before / after that Append; impl = values found (None = panic or error) *)
+| CActiveRace (hash : list (bytes * nat)) (pre : list (list nat * list (bytes * nat))) (sched : list rev)
+              (f : bytes) (q : query) (before after : list bytes) (impl : option (list bytes))
+(* ONE sealed data provider / TableLoader, token table evicted and reloaded before every lookup:
+   lens = block lengths of the index file, cursors = loader cursor after each reload, tokens = the
+   field's dictionary, qs = lookups with the values returned *)
+| CReload (lens : list N) (cursors : list Z) (tokens : list bytes) (qs : list (query * list bytes)).
 
 Definition obytes_eqb := option_eqb bytes_eqb.
 
@@ -232,6 +242,25 @@ Definition case_agrees (c : case) : bool :=
                             Z.eqb lt (Z.of_nat (length toks)) &&
                             list_eqb obytes_eqb (map (fun i => ap_get_token st f (Z.of_nat i)) (seq 1 (length toks))) toks
                         end) prov
+  | CActiveRace hash pre sched f q before after impl =>
+      let st0 := {| c_tl := tl_run (hash_of hash) tl_empty pre; c_pending := [] |} in
+      option_eqb blist_eqb (race_find (lookup []) (hash_of hash) st0 sched f q) impl
+  | CReload lens cursors tokens qs =>
+      forallb (fun c => match tl_load lens 0 with
+                        | Some (_, stop) => Z.eqb c (Z.of_nat stop)
+                        | None => false
+                        end) cursors &&
+      (* the loader model is stateless in its cursor: the same answer from the cursor a load left *)
+      match tl_lookups lens 0 None (map (fun _ => true) qs) with
+      | r :: rest => forallb (fun x => match r, x with
+                                       | Some (a, b), Some (c, d) => Nat.eqb a c && Nat.eqb b d
+                                       | _, _ => false end) rest
+      | [] => true
+      end &&
+      forallb (fun qi => match sealed_search (lookup []) 1 [tokens] (fst qi) with
+                         | Some s => blist_eqb (vals_of 1 tokens s) (snd qi)
+                         | None => false
+                         end) qs
   end.
 
 (* implementation output satisfies the property (independent of the model's algorithms) *)
@@ -326,6 +355,18 @@ Definition case_spec_ok (c : case) : bool :=
                             list_eqb obytes_eqb toks (map (fun tid => Some (nth (Z.to_nat tid) vals [])) tids)
                         end) prov &&
       Nat.eqb (length prov) (length fields)
+  (* no panic, and the token set found = the scan of the field's tokens published before the
+     Append, or of those published after it *)
+  | CActiveRace hash pre sched f q before after impl =>
+      match impl with
+      | None => false
+      | Some vals => blist_eqb vals (filter (spec_match (lookup []) q) before) ||
+                     blist_eqb vals (filter (spec_match (lookup []) q) after)
+      end
+  (* every lookup, whatever was evicted before it, returns the scan of the dictionary *)
+  | CReload lens cursors tokens qs =>
+      Nat.leb 2 (length qs) &&
+      forallb (fun qi => blist_eqb (filter (spec_match (lookup []) (fst qi)) tokens) (snd qi)) qs
   end.
 
 Definition diff_indices (l : list case) : list nat := bad_indices (fun c => negb (case_agrees c)) l.
